@@ -16,7 +16,7 @@ import (
 func init() {
 	register(&Property{
 		ID:          "C10",
-		Explanation: "R1 (cap): the store of an increased current weight V = k x curWeight (k a constant > 1) executes only on an edge implying C - V >= 0 with C a constant <= 4096, so no adjustment raises a weight above the cap. R2 (direction): in the marked-adjustment routine every store to a record's current weight is control-dependent on that record's good flag being true; the flag is set true exactly on the edge where the record's rating is a member of the 'good' result of the outlier splitter and false otherwise; the normalisation divides every record by the same value in a full range loop with no per-record condition (share-preserving). Hence an adjustment made with outliers present never raises an outlier's share. R3 (back-off): everything that applies weights from adjustWeights lies on the true edge of the timer-expired test, which is evaluated with the rebalancer mutex held; each applying routine returns true exactly on the paths that applied, and on that edge the timer is re-armed with now + backoffDuration on every path. R4 (reset): reset() restores curWeight := origWeight for every record, re-applies it to the wrapped balancer, re-arms the timer and re-allocates the ratings buffer with exactly len(servers) entries unconditionally; every successful upsert/remove passes reset() (C02.R2). R5 (convergence target): the decrease routine's result is an if-then-else between its target and current/factor that can never be below the target. R3 decides \"returns true exactly when it applied\" by a relational fixpoint over (applied so far, flag values), exact for flags carried around loops. R5 also: the convergence step is guarded by current != configured only. R2 also: loops over the server list in routines that adjust records are left only when exhausted. R3 also: weights are applied only after one was changed, and no return is reachable with a changed (or normalised) weight not yet applied (set/clear flag fixpoint).",
+		Explanation: "R1 (cap): the store of an increased current weight V = k x curWeight (k a constant > 1) executes only on an edge implying C - V >= 0 with C a constant <= 4096, so no adjustment raises a weight above the cap. R2 (direction): in the marked-adjustment routine every store to a record's current weight is control-dependent on that record's good flag being true; the flag is set true exactly on the edge where the record's rating is a member of the 'good' result of the outlier splitter and false otherwise; the normalisation divides every record by the same value in a full range loop with no per-record condition (share-preserving). Hence an adjustment made with outliers present never raises an outlier's share. R3 (back-off): everything that applies weights from adjustWeights lies on the true edge of the timer-expired test, which is evaluated with the rebalancer mutex held; each applying routine returns true exactly on the paths that applied, and on that edge the timer is re-armed with now + backoffDuration on every path. R4 (reset): reset() restores curWeight := origWeight for every record, re-applies it to the wrapped balancer, re-arms the timer and re-allocates the ratings buffer with exactly len(servers) entries unconditionally; every successful upsert/remove passes reset() (C02.R2). R5 (convergence target): the decrease routine's result is an if-then-else between its target and current/factor that can never be below the target. R3 decides \"returns true exactly when it applied\" by a relational fixpoint over (applied so far, flag values), exact for flags carried around loops. R5 also: the convergence step is guarded by current != configured only. R2 also: loops over the server list in routines that adjust records are left only when exhausted. R3 also: weights are applied only after one was changed, and no return is reachable with a changed (or normalised) weight not yet applied (set/clear flag fixpoint). R6 (= C02.R5/R6): records own a copy of their URL; the wrapped balancer's pool is only changed under the rebalancer mutex.",
 		NotDecided: []string{
 			"the weight >= 1 floor after gcd normalisation, 'loses share within two back-off intervals', 'back to the configured proportions within six adjustments' and the outlier statistic itself: numerical facts over rating histories, no sound static argument in reach",
 			"metering happens under the rebalancer mutex: decided by C09",
